@@ -360,6 +360,8 @@ class SplineGeometry(Geometry):
                 chk_kv.append(all(chk))
             if not all(chk_kv):
                 return False
+            if len(self._control_points) != len(other._control_points):
+                return False
             chk_ctrlpts = []
             for sk, ok in zip(self._control_points, other._control_points):
                 if len(sk) != len(ok):
